@@ -296,16 +296,68 @@ def tailEnts (t : Option WReq) : List FileEnt :=
   | some r => r.ents
   | none => []
 
-/-- The context in which `finishBatch` handles the trailing request. -/
+/-- The context in which `finishBatch` sends the callbacks. -/
 def WCtx.fb0 (c : WCtx) (batch : List WReq) (ok : Bool) : WCtx :=
   (batch.filterMap WReq.cbId).foldl (fun c i => c.emit (.cb i ok))
     { c with w := { c.w with lastSyncFailed := !ok } }
 
+/-- The chunk ids of a trailing `removeChunks` request. -/
+def tailIds (t : Option WReq) : List Nat :=
+  match t with
+  | some (.removeChunks ids) => ids
+  | _ => []
+
+/-- The request `finishBatch` hands to `nonFlush`: the trailing removal (empty when there is none;
+the postponed removal is retried after every batch). -/
+def tailReq (t : Option WReq) : WReq :=
+  match t with
+  | some (.write u d cb) => .write u d cb
+  | _ => .removeChunks (tailIds t)
+
+/-- The context in which `finishBatch` handles the trailing request: callbacks sent, a trailing
+`appendFile` already executed. -/
+def WCtx.fb1 (c : WCtx) (batch : List WReq) (tail : Option WReq) (ok : Bool) : WCtx :=
+  { (c.fb0 batch ok) with w := { (c.fb0 batch ok).w with files := (c.fb0 batch ok).w.files ++ tailEnts tail } }
+
 theorem WCtx.finishBatch_eq (c : WCtx) (batch : List WReq) (tail : Option WReq) (ok : Bool) :
-    c.finishBatch batch tail ok =
-      match tail with
-      | some r => (c.fb0 batch ok).nonFlush r
-      | none => (c.fb0 batch ok).toRecv := rfl
+    c.finishBatch batch tail ok = (c.fb1 batch tail ok).nonFlush (tailReq tail) := by
+  cases tail with
+  | none =>
+    show (c.fb0 batch ok).nonFlush (.removeChunks []) = _
+    simp [WCtx.fb1, tailEnts, tailReq, tailIds]
+  | some r =>
+    cases r with
+    | write u d cb =>
+      show (c.fb0 batch ok).nonFlush (.write u d cb) = _
+      simp [WCtx.fb1, tailEnts, tailReq, WReq.ents]
+    | appendFile id p => rfl
+    | removeChunks ids =>
+      show (c.fb0 batch ok).nonFlush (.removeChunks ids) = _
+      simp [WCtx.fb1, tailEnts, tailReq, tailIds, WReq.ents]
+
+@[simp] theorem tailIds_none : tailIds none = [] := rfl
+@[simp] theorem tailIds_removeChunks (ids : List Nat) : tailIds (some (.removeChunks ids)) = ids := rfl
+@[simp] theorem tailIds_appendFile (n : Nat) (p : Option LogId) : tailIds (some (.appendFile n p)) = [] := rfl
+@[simp] theorem tailIds_write (u : Nat) (d : Bytes) (cb : Option Nat) : tailIds (some (.write u d cb)) = [] := rfl
+@[simp] theorem tailReq_none : tailReq none = .removeChunks [] := rfl
+@[simp] theorem tailReq_removeChunks_eq (ids : List Nat) :
+    tailReq (some (.removeChunks ids)) = .removeChunks ids := rfl
+@[simp] theorem tailReq_appendFile (n : Nat) (p : Option LogId) :
+    tailReq (some (.appendFile n p)) = .removeChunks [] := rfl
+@[simp] theorem tailReq_write (u : Nat) (d : Bytes) (cb : Option Nat) :
+    tailReq (some (.write u d cb)) = .write u d cb := rfl
+@[simp] theorem tailEnts_none : tailEnts none = [] := rfl
+@[simp] theorem tailEnts_some (r : WReq) : tailEnts (some r) = r.ents := rfl
+
+@[simp] theorem tailReq_ents (t : Option WReq) : (tailReq t).ents = [] := by
+  unfold tailReq; split <;> rfl
+
+theorem tailReq_removeChunks {t : Option WReq} {ids : List Nat} (h : tailReq t = .removeChunks ids) :
+    ids = tailIds t := by
+  unfold tailReq at h
+  split at h
+  · cases h
+  · simpa using h.symm
 
 @[simp] theorem WCtx.fb0_w (c : WCtx) (b : List WReq) (ok : Bool) :
     (c.fb0 b ok).w = { c.w with lastSyncFailed := !ok } := by
@@ -315,75 +367,76 @@ theorem WCtx.finishBatch_eq (c : WCtx) (batch : List WReq) (tail : Option WReq) 
 @[simp] theorem WCtx.fb0_evs (c : WCtx) (b : List WReq) (ok : Bool) :
     (c.fb0 b ok).evs = c.evs ++ cbEvs (batchCbs b ok) := by
   simp [WCtx.fb0, foldl_emit_evs, cbEvs, batchCbs, List.map_map, Function.comp_def]
+@[simp] theorem WCtx.fb0_cache (c : WCtx) (b : List WReq) (ok : Bool) : (c.fb0 b ok).cache = c.cache := by
+  simp [WCtx.fb0, foldl_emit_cache]
+
+@[simp] theorem WCtx.fb1_w (c : WCtx) (b : List WReq) (t : Option WReq) (ok : Bool) :
+    (c.fb1 b t ok).w = { c.w with lastSyncFailed := !ok, files := c.w.files ++ tailEnts t } := by
+  simp [WCtx.fb1]
+@[simp] theorem WCtx.fb1_fs (c : WCtx) (b : List WReq) (t : Option WReq) (ok : Bool) :
+    (c.fb1 b t ok).fs = c.fs := by
+  simp [WCtx.fb1]
+@[simp] theorem WCtx.fb1_evs (c : WCtx) (b : List WReq) (t : Option WReq) (ok : Bool) :
+    (c.fb1 b t ok).evs = c.evs ++ cbEvs (batchCbs b ok) := by
+  simp [WCtx.fb1]
+@[simp] theorem WCtx.fb1_cache (c : WCtx) (b : List WReq) (t : Option WReq) (ok : Bool) :
+    (c.fb1 b t ok).cache = c.cache := by
+  simp [WCtx.fb1]
 
 @[simp] theorem WCtx.finishBatch_fsW (c : WCtx) (b : List WReq) (t : Option WReq) (ok : Bool) :
     (c.finishBatch b t ok).fs = c.fs := by
-  rw [WCtx.finishBatch_eq]; cases t <;> simp
+  rw [WCtx.finishBatch_eq]; simp
 @[simp] theorem WCtx.finishBatch_files (c : WCtx) (b : List WReq) (t : Option WReq) (ok : Bool) :
     (c.finishBatch b t ok).w.files = c.w.files ++ tailEnts t := by
-  rw [WCtx.finishBatch_eq]; cases t <;> simp [tailEnts]
+  rw [WCtx.finishBatch_eq]; simp
 @[simp] theorem WCtx.finishBatch_lsf (c : WCtx) (b : List WReq) (t : Option WReq) (ok : Bool) :
     (c.finishBatch b t ok).w.lastSyncFailed = !ok := by
-  rw [WCtx.finishBatch_eq]; cases t <;> simp
+  rw [WCtx.finishBatch_eq]; simp
 @[simp] theorem WCtx.finishBatch_aliveW (c : WCtx) (b : List WReq) (t : Option WReq) (ok : Bool) :
     (c.finishBatch b t ok).w.senderAlive = c.w.senderAlive := by
-  rw [WCtx.finishBatch_eq]; cases t <;> simp
+  rw [WCtx.finishBatch_eq]; simp
 @[simp] theorem WCtx.finishBatch_held (c : WCtx) (b : List WReq) (t : Option WReq) (ok : Bool) :
     (c.finishBatch b t ok).w.pc.held ++ (c.finishBatch b t ok).w.queue = c.w.queue := by
-  rw [WCtx.finishBatch_eq]; cases t <;> simp
+  rw [WCtx.finishBatch_eq]; simp
 @[simp] theorem WCtx.finishBatch_batch (c : WCtx) (b : List WReq) (t : Option WReq) (ok : Bool) :
     (c.finishBatch b t ok).w.pc.batch ++ (c.finishBatch b t ok).w.queue = c.w.queue := by
-  rw [WCtx.finishBatch_eq]; cases t <;> simp
+  rw [WCtx.finishBatch_eq]; simp
 
 theorem WCtx.finishBatch_evs (c : WCtx) (b : List WReq) (t : Option WReq) (ok : Bool) :
     ∃ rest, (c.finishBatch b t ok).evs = c.evs ++ cbEvs (batchCbs b ok) ++ rest ∧
       ∀ e ∈ rest, e.isMisc = true := by
   rw [WCtx.finishBatch_eq]
-  cases t with
-  | none =>
-    obtain ⟨rest, h, hm⟩ := (c.fb0 b ok).toRecv_evs
-    exact ⟨rest, by simpa using h, hm⟩
-  | some r =>
-    obtain ⟨rest, h, hm⟩ := (c.fb0 b ok).nonFlush_evs r
-    exact ⟨rest, by simpa using h, hm⟩
+  obtain ⟨rest, h, hm⟩ := (c.fb1 b t ok).nonFlush_evs (tailReq t)
+  exact ⟨rest, by simpa using h, hm⟩
 
+/-- New with the retried removal: a finished batch parks at `unlinking` exactly when its sync
+succeeded and there is something to remove (postponed ids first, then the trailing request's). -/
 theorem WCtx.finishBatch_pc (c : WCtx) (b : List WReq) (t : Option WReq) (ok : Bool) :
     (c.finishBatch b t ok).w.pc.isRest ∧
     ((c.finishBatch b t ok).w.pc = .dead → (c.finishBatch b t ok).w.queue = []) ∧
     (∀ ids, (c.finishBatch b t ok).w.pc = .unlinking ids →
-      ok = true ∧ (c.finishBatch b t ok).w.postponed = [] ∧
-      ∃ ids0, t = some (.removeChunks ids0) ∧ ids = c.w.postponed ++ ids0) := by
+      ok = true ∧ (c.finishBatch b t ok).w.postponed = [] ∧ ids = c.w.postponed ++ tailIds t) := by
   rw [WCtx.finishBatch_eq]
-  cases t with
-  | none =>
-    have := (c.fb0 b ok).toRecv_pc
-    refine ⟨this.1.isRest, this.2, ?_⟩
-    intro ids hp
-    have h1 := this.1
-    rw [hp] at h1
-    cases h1
-  | some r =>
-    have := (c.fb0 b ok).nonFlush_pc r
-    refine ⟨this.1, this.2.1, ?_⟩
-    intro ids hp
-    obtain ⟨h1, h2, ids0, h3, h4⟩ := this.2.2 ids hp
-    refine ⟨by simpa using h1, h2, ids0, by rw [h3], by simpa using h4⟩
+  have := (c.fb1 b t ok).nonFlush_pc (tailReq t)
+  refine ⟨this.1, this.2.1, ?_⟩
+  intro ids hp
+  obtain ⟨h1, h2, ids0, h3, h4⟩ := this.2.2 ids hp
+  refine ⟨by simpa using h1, h2, ?_⟩
+  rw [← tailReq_removeChunks h3]
+  simpa using h4
 
 theorem WCtx.finishBatch_postponed (c : WCtx) (b : List WReq) (t : Option WReq) (ok : Bool) :
     (c.finishBatch b t ok).w.postponed = c.w.postponed ∨
-    (∃ ids, t = some (.removeChunks ids) ∧ ok = false ∧
-      (c.finishBatch b t ok).w.postponed = c.w.postponed ++ ids) ∨
-    (∃ ids, t = some (.removeChunks ids) ∧ ok = true ∧
-      (c.finishBatch b t ok).w.pc = .unlinking (c.w.postponed ++ ids) ∧
+    (ok = false ∧ (c.finishBatch b t ok).w.postponed = c.w.postponed ++ tailIds t) ∨
+    (ok = true ∧ (c.finishBatch b t ok).w.pc = .unlinking (c.w.postponed ++ tailIds t) ∧
       (c.finishBatch b t ok).w.postponed = []) := by
   rw [WCtx.finishBatch_eq]
-  cases t with
-  | none => exact .inl (by simp)
-  | some r =>
-    rcases (c.fb0 b ok).nonFlush_postponed r with h | ⟨ids, hr, hl, h⟩ | ⟨ids, hr, hl, h1, h2⟩
-    · exact .inl (by simpa using h)
-    · exact .inr (.inl ⟨ids, by rw [hr], by simpa using hl, by simpa using h⟩)
-    · exact .inr (.inr ⟨ids, by rw [hr], by simpa using hl, by simpa using h1, h2⟩)
+  rcases (c.fb1 b t ok).nonFlush_postponed (tailReq t) with h | ⟨ids, hr, hl, h⟩ | ⟨ids, hr, hl, h1, h2⟩
+  · exact .inl (by simpa using h)
+  · rw [tailReq_removeChunks hr] at h
+    exact .inr (.inl ⟨by simpa using hl, by simpa using h⟩)
+  · rw [tailReq_removeChunks hr] at h1
+    exact .inr (.inr ⟨by simpa using hl, by simpa using h1, h2⟩)
 
 /-! ### `startSync`, `startWrites` -/
 
